@@ -116,6 +116,15 @@ pub struct Monitor {
     pub budget: Option<fn(Tier, u64) -> u64>,
 }
 
+/// Sanitizer / interpreter legs run a 1/N sample of the planned cases.
+pub fn cases_div() -> u64 {
+    std::env::var("VERIF_CASES_DIV")
+        .ok()
+        .and_then(|s| s.trim().parse::<u64>().ok())
+        .filter(|d| *d >= 1)
+        .unwrap_or(1)
+}
+
 pub fn env_seed() -> u64 {
     std::env::var("VERIF_SEED")
         .ok()
@@ -150,7 +159,8 @@ pub fn worker_main(
     timeout_mult: u64,
 ) -> i32 {
     crate::exec::install_panic_hook();
-    let plan = (mon.plan)(tier);
+    let mut plan = (mon.plan)(tier);
+    plan.cases = (plan.cases / cases_div()).max(1);
     let t0 = Instant::now();
     let deadline = Duration::from_secs(plan.time_cap_s);
     let done = Arc::new(Mutex::new(false));
@@ -330,8 +340,15 @@ fn spawn_worker(
     start_at: Option<u64>,
 ) -> std::process::Child {
     // address-space limit so that a runaway allocation kills one worker, not the box
+    // (sanitizer builds reserve terabytes of address space: no limit there)
+    let limit = if std::env::var("VERIF_NO_ULIMIT").is_ok() {
+        ""
+    } else {
+        "ulimit -v 12000000; "
+    };
     let mut cmdline = format!(
-        "ulimit -v 12000000; exec {} worker {} {} {} {} {}",
+        "{}exec {} worker {} {} {} {} {}",
+        limit,
         exe,
         mon.id,
         tier.name(),
@@ -476,8 +493,14 @@ fn parse_worker_output(
 
 /// Re-run one case alone with a larger watchdog budget.  Returns what happened.
 fn isolate(exe: &str, mon: &Monitor, tier: Tier, seed: u64, idx: u64) -> (WorkerEnd, String, Vec<Violation>) {
+    let limit = if std::env::var("VERIF_NO_ULIMIT").is_ok() {
+        ""
+    } else {
+        "ulimit -v 12000000; "
+    };
     let cmdline = format!(
-        "ulimit -v 12000000; exec {} worker {} {} {} 0 1 --only {} --mult 5",
+        "{}exec {} worker {} {} {} 0 1 --only {} --mult 5",
+        limit,
         exe,
         mon.id,
         tier.name(),
@@ -541,7 +564,9 @@ pub fn supervisor_main(mon: &'static Monitor, tier: Tier) -> i32 {
         .expect("current_exe")
         .to_string_lossy()
         .to_string();
-    let plan = (mon.plan)(tier);
+    let mut plan = (mon.plan)(tier);
+    plan.cases = (plan.cases / cases_div()).max(1);
+    let leg = std::env::var("VERIF_LEG").ok();
     let ncpu = std::thread::available_parallelism()
         .map(|n| n.get() as u64)
         .unwrap_or(4);
@@ -672,8 +697,9 @@ pub fn supervisor_main(mon: &'static Monitor, tier: Tier) -> i32 {
         inconclusive.push(format!("{} harness errors", col.harness_errors));
     }
 
-    // thresholds
-    for (name, min) in (mon.thresholds)(tier) {
+    // thresholds (a leg only samples the workload: its reach is reported, not judged)
+    let thresholds = if leg.is_some() { Vec::new() } else { (mon.thresholds)(tier) };
+    for (name, min) in thresholds {
         let have = match name {
             "cases" => col.cases,
             "evals" => col.evals,
@@ -783,10 +809,11 @@ pub fn supervisor_main(mon: &'static Monitor, tier: Tier) -> i32 {
     });
     let evdir = format!("{}/evidence", root);
     let _ = std::fs::create_dir_all(&evdir);
-    let _ = std::fs::write(
-        format!("{}/{}.json", evdir, mon.id),
-        serde_json::to_string_pretty(&evidence).unwrap(),
-    );
+    let evname = match &leg {
+        Some(l) => format!("{}/{}.leg-{}.json", evdir, mon.id, l),
+        None => format!("{}/{}.json", evdir, mon.id),
+    };
+    let _ = std::fs::write(evname, serde_json::to_string_pretty(&evidence).unwrap());
 
     for l in &lines {
         println!("{}", l);
